@@ -286,7 +286,7 @@ pub fn run_and_judge(ctx: &CaseCtx, l: &mut Local) {
     }
     let mut budget = full.steps.saturating_mul(1000).saturating_add(1_000_000);
     let mut groups = ctx.cfg.groups;
-    if groups & crate::run::grp::VALUE != 0 && groups & crate::run::grp::FORMS != 0 && !(ctx.case.pre.is_empty() && ctx.case.post.is_empty()) {
+    if groups & crate::run::grp::PAIRS != 0 && !(ctx.case.pre.is_empty() && ctx.case.post.is_empty()) {
         // the pair observation also parses the other windows of the parent string: they must be
         // well-founded too, and the step budget has to cover them
         let parent = format!("{}{}{}", ctx.case.pre, ctx.case.s, ctx.case.post);
@@ -295,7 +295,7 @@ pub fn run_and_judge(ctx: &CaseCtx, l: &mut Local) {
         for (lo, hi) in [(0, parent.len()), (0, b), (ctx.case.pre.len(), parent.len())] {
             let o = refpeg::run(&ctx.model.opt, ctx.rule.name, &parent, lo, hi, &quiet);
             if o.exhausted || o.zero_progress {
-                groups &= !crate::run::grp::VALUE;
+                groups &= !crate::run::grp::PAIRS;
                 l.count("pair_observation_skipped_not_well_founded");
             }
             budget = budget.max(o.steps.saturating_mul(1000).saturating_add(1_000_000));
